@@ -55,7 +55,7 @@ PLANNED_TAGS = ['pd:1D', 'pd:2D', 'pd:argmin-changes-along-grid', 'pd:argmin-con
                 'pd:scan-H2O_kwargs', 'pd:single-reaction', 'pd:single-point', 'pd:norm-list', 'pd:1D=row-of-2D',
                 'pd:1D=column-of-2D', 'span:max-before-min', 'span:max-after-min', 'span:tie', 'span:ts-is-max',
                 'span:intermediate-is-max', 'span:no-ts', 'span:spectator', 'span:single-step', 'span:Reactions',
-                'span:Network']
+                'span:Network', 'span:unchained', 'pd:norm-edit-reassign', 'pd:norm-edit-inplace']
 
 
 def bounds(tier):
@@ -238,6 +238,20 @@ def _run_pd1(case, ctx):
         ctx.tag('pd:norm-list')
     ctx.trans(case['n'] * case['nx'])
     _check_1d(pd, rxns, norms, name, grid, base, units, ctx, sig, case)
+    hist = case.get('hist')
+    if hist:
+        # history: scan, change the public norm_factors attribute, scan again on the same object -
+        # the second table must use the factors the object carries NOW
+        ctx.tag('pd:norm-edit-' + hist)
+        new = [NORMS[(i + case['off'] + 1) % 4] for i in range(case['n'])]
+        if hist == 'reassign':
+            pd.norm_factors = list(new) if case.get('normlist') else np.array(new)
+        else:
+            for i, v in enumerate(new):
+                pd.norm_factors[i] = v
+        ctx.trans(case['n'] * case['nx'])
+        _check_1d(pd, rxns, new, name, grid, base, units, ctx, dict(sig, history='scan, edit norm_factors (%s), scan' % hist),
+                  case, tag=False)
 
 
 def _run_pd2(case, ctx):
@@ -314,6 +328,8 @@ def _pd1_cases(tier):
     def emit(**kw):
         case = dict(kind='pd1', n=kw['n'], rot=kw['rot'], off=kw['off'], scan=kw['scan'], nx=kw['nx'],
                     units=kw['units'], base=kw['base'], normlist=kw['normlist'])
+        if kw.get('hist'):
+            case['hist'] = kw['hist']
         key = tuple(sorted((k, str(v)) for k, v in case.items()))
         if key not in seen:
             seen.add(key)
@@ -333,7 +349,8 @@ def _pd1_cases(tier):
                                 yield c
                     # one deviation each from the default of the remaining dimensions
                     if nx in (2, 5):
-                        devs = [dict(base='b'), dict(normlist=True)]
+                        devs = [dict(base='b'), dict(normlist=True), dict(hist='reassign'), dict(hist='inplace'),
+                                dict(hist='inplace', normlist=True)]
                         if tier == 'quick':
                             devs += [dict(rot=r) for r in (2, 4, 6)] + [dict(off=o) for o in (1, 2, 3)]
                         for dv in devs:
@@ -375,6 +392,15 @@ def _span_cases(tier):
         for g in itertools.product(LAT, repeat=k + 1):
             for ts in _ts_codes(k):
                 yield dict(kind='span', g=list(g), ts=list(ts), spect=True)
+    # sequences whose steps do NOT share states (each step written with its own species): the reactant
+    # state of every step is a state of the sequence in its own right
+    for rp in itertools.product(LAT, repeat=4):
+        for ts in _ts_codes(2):
+            yield dict(kind='span', g=list(rp), ts=list(ts), spect=False, chain=False)
+    if tier == 'thorough':
+        for rp in itertools.product(LAT, repeat=6):
+            for ts in ((0, 0, 0), (1, 1, 1), (0, 1, 0)):
+                yield dict(kind='span', g=list(rp), ts=list(ts), spect=False, chain=False)
     if tier == 'thorough':
         seen = set()
         for k in (5, 6, 7, 8):
@@ -402,6 +428,15 @@ def _span_cases(tier):
 def _profile(case):
     """The profile as the harness defines it: ordered (name, energy, is_ts) of the physical states."""
     g, ts = case['g'], case['ts']
+    if case.get('chain') is False:
+        out = []
+        for i in range(len(ts)):
+            r, p = g[2 * i], g[2 * i + 1]
+            out.append(('R%d' % i, r, False))
+            if ts[i]:
+                out.append(('TS%d' % i, max(r, p) + 1.0, True))
+            out.append(('P%d' % i, p, False))
+        return out
     out = [('S0', g[0], False)]
     for i in range(len(ts)):
         if ts[i]:
@@ -427,6 +462,8 @@ def _span_sig(case, api=None, units=None):
     prof = _profile(case)
     _, branch, _ = _span_candidates([p[1] for p in prof])
     s = dict(part='e-span', branch=branch)
+    if case.get('chain') is False:
+        s['steps'] = 'unchained'
     if api:
         s['api'] = api
         s['units'] = units or 'none'
@@ -453,9 +490,12 @@ def _run_span(case, ctx):
 
     k = len(case['ts'])
     rxns = []
+    unchained = case.get('chain') is False
+    if unchained:
+        ctx.tag('span:unchained')
     for i in range(k):
-        r, rs = state('S%d' % i)
-        p, ps = state('S%d' % (i + 1))
+        r, rs = state('R%d' % i if unchained else 'S%d' % i)
+        p, ps = state('P%d' % i if unchained else 'S%d' % (i + 1))
         t, tst = (state('TS%d' % i) if case['ts'][i] else (None, None))
         rxns.append(Reaction(reactants=r, reactants_stoich=rs, products=p, products_stoich=ps, transition_state=t,
                              transition_state_stoich=tst))
@@ -487,6 +527,8 @@ def _run_span(case, ctx):
         f = c.R('%s/K' % units) / c.R('eV/K')
         ctx.close(clause, obs, nearest(obs, f), _span_sig(case, 'Reactions', units), case, rtol=1e-9,
                   scale=(abs(max(E)) + abs(min(E)) + 2 * X_G + 1.0) * f)
+    if unchained:
+        return          # Network.get_E_span follows a path of shared states; not defined for unchained steps
     # Network.get_E_span along the path written down by the harness
     ctx.tag('span:Network')
     net = Network(reactions=rxns)
@@ -528,7 +570,7 @@ def run_shard(shard, ctx):
             continue
         if kind == 'span':
             sig = _span_sig(case)
-            key = ('span', tuple(case['g']), tuple(case['ts']), case['spect'])
+            key = ('span', tuple(case['g']), tuple(case['ts']), case['spect'], case.get('chain', True))
             ctx.state(key)
             if sig['branch'] != 'after' or any(case['ts']):
                 ctx.nontrivial(key)
